@@ -64,6 +64,7 @@ func c03run(line string) (string, []string) {
 				var err error
 				b, err = gunz(z)
 				if err != nil {
+					viol = append(viol, fmt.Sprintf("the gzip-compressed directory written by SerializeEntries is not a complete gzip member: an independent reader that inflates the whole stream fails with %v", err))
 					return "err gunzip"
 				}
 				if valid {
